@@ -18,6 +18,12 @@ class Spec:
     def __init__(self, name, kind, pos=(), named=None, observed=False, uses_meta=False):
         self.name, self.kind, self.pos, self.named = name, kind, list(pos), dict(named or {})
         self.observed, self.uses_meta = observed, uses_meta
+        self.op_name = name          # which uninterpreted operation the node runs (changes when it `become`s another)
+
+    def clone(self):
+        c = Spec(self.name, self.kind, list(self.pos), dict(self.named), self.observed, self.uses_meta)
+        c.op_name = self.op_name
+        return c
 
     @property
     def stochastic(self):
@@ -97,7 +103,7 @@ class Built:
         self.model = self._build(specs)
 
     def fname(self, spec):
-        return 'F_%s_%s' % (spec.name, '_'.join(sorted(spec.named)))
+        return 'F_%s_%s' % (spec.op_name, '_'.join(sorted(spec.named)))
 
     def _op(self, spec):
         B = self
